@@ -3,6 +3,7 @@ package main
 import (
 	"fmt"
 	"math/rand"
+	"strings"
 	"time"
 
 	"verif/h"
@@ -123,37 +124,34 @@ func matrixCase(c *h.Case, i int) {
 	detail := ""
 	if m.Real {
 		cfg := common + fmt.Sprintf("\n[[proxies]]\nname = \"p\"\ntype = \"stcp\"\nlocalIP = \"127.0.0.1\"\nlocalPort = 9\nsecretKey = \"%s\"\n", newMarker(rng))
-		cli, err := h.StartClientText(prop, cfg)
+		cli, err := startFrpc(cfg)
 		if err != nil {
-			run.Inconclusive("matrix: client config rejected: " + err.Error())
-			return
+			// with loginFailExit the process may already be gone when the harness looks for its
+			// ready line: that is a refusal, decided below from the session table
+			c.Ev("frpc-start", "err", err.Error())
+			if !strings.Contains(err.Error(), "run:") {
+				run.Inconclusive("matrix: frpc process did not start")
+				return
+			}
 		}
 		deadline := time.Now().Add(40 * time.Second)
-	wait:
-		for time.Now().Before(deadline) {
+		for cli != nil && time.Now().Before(deadline) {
 			if ids, _ := ps.sessionsOfUser(user); len(ids) > 0 {
-				accepted = true
 				break
 			}
-			select {
-			case <-cli.Done():
-				break wait
-			case <-time.After(10 * time.Millisecond):
+			if cli.ch.Exited() {
+				break
 			}
+			time.Sleep(10 * time.Millisecond)
 		}
 		if ids, _ := ps.sessionsOfUser(user); len(ids) > 0 {
 			accepted = true
 		}
 		replied = accepted
-		detail = "real frpc"
-		if accepted {
-			// frpc dereferences a nil control when it is cancelled in the instant between a successful
-			// login and the start of its keep-alive goroutine (client/service.go keepControllerWorking;
-			// a robustness defect outside this property): let the client settle before stopping it
-			_ = cli.WaitRunning(20*time.Second, user+".p")
-			time.Sleep(300 * time.Millisecond)
+		detail = "real frpc process"
+		if cli != nil {
+			cli.stop(c)
 		}
-		cli.Close()
 		run.Count("matrix_real_frpc", 1)
 	} else {
 		cc, _, _, err := h.LoadClientConfig(prop, common)
